@@ -550,6 +550,21 @@ def _specs():
             f1, f2 = K.path("w.npy"), K.path("wc.npy")
             return _S(lambda: o.w_W_cap(cg, f1, f2), (sn, p), [(f1, "npy", lambda r: r[0], None), (f2, "npy", lambda r: r[1], None)])
 
+        # names ending in .dat / .txt: the documented text twin (np.savetxt, 6 decimals) next to the binary file <name>.npy
+        @add("static.boo.boo_3d.w_W_cap", f"3d/cg={cg}/text-files")
+        def _(K, cg=cg):
+            sn, p, o = boo3(K)
+            f1, f2 = K.path("w.dat"), K.path("wc.txt")
+            return _S(lambda: o.w_W_cap(cg, f1, f2), (sn, p),
+                      [(f1 + ".npy", "npy", lambda r: r[0], None), (f2 + ".npy", "npy", lambda r: r[1], None),
+                       (f1, "txt", lambda r: r[0], 6), (f2, "txt", lambda r: r[1], 6)])
+
+        @add("static.boo.boo_3d.ql_Ql", f"3d/cg={cg}/text-file")
+        def _(K, cg=cg):
+            sn, p, o = boo3(K)
+            f = K.path("ql.dat")
+            return _S(lambda: o.ql_Ql(cg, f), (sn, p), [(f + ".npy", "npy", lambda r: r, None), (f, "txt", lambda r: r, 6)])
+
     @add("static.boo.boo_3d.spatial_corr", "3d/file")
     def _(K):
         sn, p, o = boo3(K)
@@ -806,6 +821,16 @@ def _specs():
             o, w = dyn(K, "Dynamics", d, "xu")
             f = K.path("sq4.csv")
             return _S(lambda: o.sq4(2 * 1000 * 0.002, 4.0, None, f), w, [(f, "csv", lambda r: r, None)])
+
+        # a per-frame selection passed by the caller, in the dtypes a caller plausibly passes (bool mask, 0/1 floats): whether a
+        # conversion inside the routine copies depends on the dtype (np.asarray / astype(copy=False) return the caller's own array)
+        for dt in ("bool", "float64"):
+            @add("dynamic.dynamics.Dynamics.sq4", f"{d}d/condition-{dt}/file")
+            def _(K, d=d, dt=dt):
+                o, w = dyn(K, "Dynamics", d, "xu")
+                f = K.path("sq4c.csv")
+                cond = (K.rng.random((w[0].nsnapshots, w[0].snapshots[0].nparticle)) > 0.2).astype(dt)
+                return _S(lambda: o.sq4(2 * 1000 * 0.002, 4.0, cond, f), w + (cond,), [(f, "csv", lambda r: r, None)])
 
     # ---- readers / writer
     def dumpfile(K, d=3):
